@@ -83,7 +83,7 @@ PROPS["C14"] = {
          "bounds": {"old project": "a (depends on k), b, k running", "new project": "a changed in one of 11 launch-relevant settings or unchanged; b kept or removed; c added or not; k untouched; d disabled in both, changed or not; r (restart always) absent, or in its restart back-off when the update changes or removes it",
                     "probes": "both kinds configured"}},
         {"pkg": "types", "name": "VerifC14_CompareLists", "quick": {}, "thorough": {}, "reach": ["end", "equal", "different"],
-         "bounds": {"list": "environment or entrypoint", "lengths": "0..2 on either side, independently", "elements": "arbitrary strings len<=2", "rest": "identical concrete configurations"}},
+         "bounds": {"list": "environment or entrypoint", "lengths": "0..2 on either side, independently", "elements": "arbitrary strings len<=2", "rest": "identical concrete configurations", "oracle": "equal => same lists and same derived executable/arguments; different => the lists differ (an unchanged process keeps its instance)"}},
         {"pkg": "types", "name": "VerifC14_Compare", "quick": {}, "thorough": {}, "reach": ["end", "equal", "different"],
          "bounds": {"strings": "arbitrary, len<=3", "ints": "full int64", "containers": "2 args, 1 env entry, 1 dependency, exec readiness + http liveness probe"}},
     ],
